@@ -18,7 +18,7 @@ from pathlib import Path
 import numpy as np
 
 import np2common as n2
-from vkit import tlc, tracecheck
+from vkit import apalache, tlc, tracecheck
 
 C03_CLAUSES = ("InRange", "Cover", "Overlap", "Count", "APPrefix", "APComplete", "APFile", "Reconstruct", "Abnormal")
 C12_CLAUSES = ("LFTokens", "LFComplete", "LFEdges", "LFFile", "Abnormal", "Count")
@@ -210,6 +210,15 @@ def run(ctx, clauses=C03_CLAUSES, pid="C03", extra_scenarios=None, post=None):
             tlc.require_all_actions_taken(r)
         if not r.ok:
             raise tlc.TLCError(f"NP2Split model violates {r.invariant_violated} ({cfg}):\n{r.out[-2000:]}")
+    # unbounded: inductive invariant of the window loop over token positions, for ALL lengths / window sizes / tapers that pass the
+    # asserts of init_params (spec/apalache/NP2SplitInd.tla), discharged by Apalache
+    ob = [("Init", "IndInv", 0), ("IndInit", "IndInvAndSafety", 1)]
+    done = [apalache.check("apalache/NP2SplitInd.tla", i, v, n) for i, v, n in ob]
+    if not all(done):
+        raise tlc.TLCError(f"inductive invariant of spec/apalache/NP2SplitInd.tla not established: {done}")
+    ctx.cov["inductive_invariant"] = {"tool": "apalache-mc 0.58", "obligations": len(ob), "discharged": sum(done),
+                                      "statement": "Init => IndInv; IndInv /\\ Next => IndInv' /\\ APPrefix /\\ APComplete /\\ LFTokens /\\ "
+                                                   "LFComplete /\\ LFEdges for unbounded ns, window = 12 wq, taper = 12 tq, overlap = 4 tapers"}
     if pid == "C03":
         cfg = "mc/ShankCols_quick.cfg" if ctx.quick else "mc/ShankCols_thorough.cfg"
         out = Path(ctx.scratch) / "shankcols.json"
